@@ -63,6 +63,13 @@ $(BUILD)/obj/%.o: $(ROOT)/sim/%.cpp $(SIMHDR) $(LIBHDR) $(TOOLCHAIN_H)
 	@echo "  CXX $<"
 	@$(CXX) $(CXXFLAGS) -c $< -o $@
 
+# harness-side C sources (a register table written with the header's macros has to be compiled as C)
+$(BUILD)/obj/%.o: $(ROOT)/sim/%.c $(LIBHDR) $(TOOLCHAIN_H)
+	@mkdir -p $(dir $@)
+	@echo "  CC  $<"
+	@$(CC) $(CFLAGS) -c $< -o $@
+$(BUILD)/bin/regsim: $(BUILD)/obj/regmacros.o
+
 $(BUILD)/bin/%: $(BUILD)/obj/%.o $(LIBOBJ)
 	@mkdir -p $(dir $@)
 	@echo "  LD  $@"
